@@ -387,7 +387,9 @@ pub fn date_constructor(
 
     // Set the exotic Date object on the this object
     if let JsValue::Object(obj) = &this {
-        obj.borrow_mut().exotic = ExoticObject::Date { timestamp };
+        obj.borrow_mut().exotic = ExoticObject::Date {
+            timestamp: time_clip(timestamp),
+        };
     }
 
     Ok(Guarded::unguarded(this))
@@ -581,12 +583,23 @@ pub fn date_to_iso_string(
 
 // Setter methods
 
+/// TimeClip: a time value is an integral number of milliseconds within 100 million days of the
+/// epoch, or NaN
+fn time_clip(ts: f64) -> f64 {
+    if !ts.is_finite() || ts.abs() > 8.64e15 {
+        return f64::NAN;
+    }
+    // (+0 rather than -0)
+    ts.trunc() + 0.0
+}
+
 fn set_date_timestamp(this: &JsValue, new_ts: f64) -> Result<f64, JsError> {
     let JsValue::Object(obj) = this else {
         return Err(JsError::type_error("this is not a Date"));
     };
     let mut obj_ref = obj.borrow_mut();
     if let ExoticObject::Date { ref mut timestamp } = obj_ref.exotic {
+        let new_ts = time_clip(new_ts);
         *timestamp = new_ts;
         Ok(new_ts)
     } else {
